@@ -305,10 +305,14 @@ func TestVerifChainExec(t *testing.T) {
 						case 2:
 							a.Keys = append(a.Keys, vKey{Name: hk, Perm: 7, Chunks: w.chunks[hk]})
 							a.Ops = append(a.Ops, vOp{Op: "get", K: hk})
-							if r.Intn(6) == 0 {
+							if r.Intn(4) == 0 {
 								a.Ops = append(a.Ops, vOp{Op: "del", K: hk})
 							} else {
-								a.Ops = append(a.Ops, vOp{Op: "put", K: hk, V: fmt.Sprintf("t%d%s", i, hk)})
+								val := fmt.Sprintf("t%d%s", i, hk)
+								if pv := st.KV[hk]; pv != "none" && r.Intn(3) == 0 {
+									val = pv // write back exactly the parent's value (possibly after an earlier tx deleted the key)
+								}
+								a.Ops = append(a.Ops, vOp{Op: "put", K: hk, V: val})
 							}
 						}
 					}
